@@ -42,6 +42,8 @@ pub trait NestedVal: map::Val<A> + CvRDT + PartialEq + std::fmt::Debug + serde::
     const LEAF_REG: bool;
     /// draw a random nested command for a value of this type
     fn random_nested(rng: &mut Rng) -> Cmd;
+    /// template commands on the hot path *inside* a value of this type (role 0 writer, role 1 nested remover)
+    fn template_nested(role: u8, rng: &mut Rng) -> Cmd;
     /// interpret a nested command for the value at `path` (the enclosing update carries `dot`)
     fn gen_nested(&self, ctx: AddCtx<A>, cmd: &Cmd, path: &[u8], dot: DotT, sh: &mut Shadow, old: Option<&Self>, acc: &mut GenAcc) -> Self::Op;
     fn obs(&self, inc: &mut Option<String>) -> ValObs;
@@ -91,8 +93,23 @@ fn os_obs(s: &OS, inc: &mut Option<String>) -> (ValObs, Clk, Clk) {
     (ValObs { reads, w: wd, nested: Dump::Unit }, add, rm_all)
 }
 
+fn os_template(role: u8, rng: &mut Rng) -> Cmd {
+    let m = if rng.chance(3, 4) { 0 } else { 1 };
+    match role {
+        0 => {
+            if rng.chance(1, 5) {
+                Cmd::new("add_all", vec![m, 1 - m])
+            } else {
+                Cmd::new("add", vec![m])
+            }
+        }
+        1 => Cmd::new("rm", vec![m]).src(["contains", "iter", "read"][rng.below(3)]),
+        _ => Cmd::new("rm_all", vec![0, 1]).src("read"),
+    }
+}
+
 fn os_random(rng: &mut Rng) -> Cmd {
-    let m = rng.below(nm() as usize) as u64;
+    let m = rand_member(rng);
     let m2 = (m + 1) % nm() as u64;
     let c = rng.below(10);
     let stale = rng.chance(1, 3);
@@ -163,6 +180,9 @@ impl NestedVal for OS {
     fn random_nested(rng: &mut Rng) -> Cmd {
         os_random(rng)
     }
+    fn template_nested(role: u8, rng: &mut Rng) -> Cmd {
+        os_template(role, rng)
+    }
     fn gen_nested(&self, ctx: AddCtx<A>, cmd: &Cmd, path: &[u8], dot: DotT, _sh: &mut Shadow, old: Option<&Self>, acc: &mut GenAcc) -> Self::Op {
         os_exec(self, cmd, old, acc, path, Some(dot), Some(ctx))
     }
@@ -188,6 +208,9 @@ impl Sut for OS {
                 return c;
             }
         }
+    }
+    fn template_cmd(role: u8, rng: &mut Rng) -> Option<Cmd> {
+        Some(os_template(role, rng))
     }
     fn gen(&self, actor: A, cmd: &Cmd, sh: &mut Shadow, old: &Self) -> Option<Gen<Self::Op>> {
         let mut acc = GenAcc { facts: vec![], desc: String::new(), rf_vals: vec![], rm_ctxs: vec![] };
@@ -265,6 +288,9 @@ impl NestedVal for MV {
     const DEPTH: usize = 0;
     const LEAF_REG: bool = true;
     fn random_nested(_rng: &mut Rng) -> Cmd {
+        Cmd::new("write", vec![])
+    }
+    fn template_nested(_role: u8, _rng: &mut Rng) -> Cmd {
         Cmd::new("write", vec![])
     }
     fn gen_nested(&self, ctx: AddCtx<A>, _cmd: &Cmd, path: &[u8], dot: DotT, sh: &mut Shadow, _old: Option<&Self>, acc: &mut GenAcc) -> Self::Op {
@@ -408,7 +434,7 @@ where
 
 fn map_rm_random(rng: &mut Rng) -> Cmd {
     let src = ["read_ctx", "len", "keys", "iter", "get", "get", "get", "get"][rng.below(8)];
-    Cmd::new("rm_key", vec![rng.below(nk() as usize) as u64]).src(src).stale(rng.chance(1, 3))
+    Cmd::new("rm_key", vec![rand_key(rng)]).src(src).stale(rng.chance(1, 3))
 }
 
 /// a key removal at this map level; records the context it used
@@ -448,9 +474,17 @@ where
     const LEAF_REG: bool = V::LEAF_REG;
     fn random_nested(rng: &mut Rng) -> Cmd {
         if rng.below(10) < 7 {
-            Cmd::new("update", vec![rng.below(nk() as usize) as u64]).sub(V::random_nested(rng))
+            Cmd::new("update", vec![rand_key(rng)]).sub(V::random_nested(rng))
         } else {
             map_rm_random(rng)
+        }
+    }
+    fn template_nested(role: u8, rng: &mut Rng) -> Cmd {
+        // the nested remover either removes the hot inner key or removes deeper inside it
+        if role == 1 && (V::DEPTH == 0 && V::LEAF_REG || rng.chance(1, 2)) {
+            Cmd::new("rm_key", vec![0]).src(["get", "keys", "read_ctx"][rng.below(3)])
+        } else {
+            Cmd::new("update", vec![0]).sub(V::template_nested(role, rng))
         }
     }
     fn gen_nested(&self, ctx: AddCtx<A>, cmd: &Cmd, path: &[u8], dot: DotT, sh: &mut Shadow, old: Option<&Self>, acc: &mut GenAcc) -> Self::Op {
@@ -478,7 +512,7 @@ where
 pub fn map_random<V: NestedVal>(rng: &mut Rng) -> Cmd {
     if rng.below(10) < 7 {
         let src = ["len", "is_empty", "read_ctx"][rng.below(3)];
-        Cmd::new("update", vec![rng.below(nk() as usize) as u64]).src(src).sub(V::random_nested(rng))
+        Cmd::new("update", vec![rand_key(rng)]).src(src).sub(V::random_nested(rng))
     } else {
         map_rm_random(rng)
     }
@@ -543,6 +577,13 @@ macro_rules! impl_map_sut {
             }
             fn random_cmd(rng: &mut Rng, _sh: &Shadow) -> Cmd {
                 map_random::<<$t as MapOf>::V>(rng)
+            }
+            fn template_cmd(role: u8, rng: &mut Rng) -> Option<Cmd> {
+                Some(if role == 2 {
+                    Cmd::new("rm_key", vec![0]).src(["get", "iter", "read_ctx", "len"][rng.below(4)])
+                } else {
+                    Cmd::new("update", vec![0]).src("read_ctx").sub(<<$t as MapOf>::V as NestedVal>::template_nested(role, rng))
+                })
             }
             fn gen(&self, actor: A, cmd: &Cmd, sh: &mut Shadow, old: &Self) -> Option<Gen<Self::Op>> {
                 map_gen(self, actor, cmd, sh, old)
